@@ -90,6 +90,7 @@ static void lx_out (int rc)
 	put_hex (LX->field);
 	printf (" %d %d ", LX->fieldOnFirstCol ? 1 : 0, (int) (unsigned char) LX->sense_val);
 	put_q (LX->bound_val);
+	if ((size_t) (LX->p - LX->line) > strlen (LX->line)) printf ("\nescaped %ld %lu", (long) (LX->p - LX->line), (unsigned long) strlen (LX->line));
 }
 
 static const char **tok_words (int *n)
@@ -121,7 +122,7 @@ int qsx_lplex_commands (const char *c)
 		printf ("\n");
 		return 1;
 	}
-	if (strncmp (c, "lx", 2)) return 0;
+	if (strncmp (c, "lx", 2)) { extern int qsx_mpslex_commands (const char *c); return qsx_mpslex_commands (c); }
 	if (!LX) { printf ("bad-op no-state\n"); return 1; }
 	if (!strcmp (c, "lxfree")) { lx_free (); printf ("ok\n"); return 1; }
 	if (!strcmp (c, "lxnf")) { rc = mpq_ILLread_lp_state_next_field (LX); lx_out (rc); }
